@@ -160,6 +160,35 @@ def forest_scenarios(n, seed, maxnodes=4, maxtrees=5, ug=True, batches=(1, 2, 3,
     return out
 
 
+def filter_scenarios(n, seed, batches=(1, 2, 3, 5, BIG)):
+    """stores with several workflow names streamed under an arbitrary name -> trace-id filter: true pairs, traces
+    listed under another workflow's name, unknown ids, one name only"""
+    rnd = random.Random(repr(("c12f", seed)))
+    shp = shapes(3)
+    out = []
+    for k in range(n):
+        nt = rnd.randrange(2, 6)
+        per, pairs = [], []
+        for i in range(nt):
+            name = "n%d" % (1 + rnd.randrange(3))
+            per.append(tree_spans(rnd.choice(shp), "j%d" % (i + 1), name, "t%d_" % (i + 1), t0=2 + rnd.randrange(3)))
+            pairs.append((name, "j%d" % (i + 1)))
+        names = sorted({p[0] for p in pairs})
+        flt = [list(p) for p in pairs if rnd.random() < 0.5]
+        for nm, jb in pairs:                      # a trace listed under a workflow name that is not its own
+            if rnd.random() < 0.4:
+                other = rnd.choice(names)
+                if other != nm:
+                    flt.append([other, jb])
+        if rnd.random() < 0.3:
+            flt.append([rnd.choice(names), "unknown-job"])
+        if not flt:
+            flt = [list(pairs[0])]
+        st = interleave(rnd, per) if k % 2 else [s for p in per for s in p]
+        out.append({"B": rnd.choice(batches), "buf": 0, "runs": [{"ing": True, "ug": True, "spans": st, "filter": flt}]})
+    return out
+
+
 def small_forests_exhaustive(maxnodes=3, batches=(1, 2, BIG)):
     """all multisets of one or two shapes with <= maxnodes nodes, same workflow name and different names"""
     shp = shapes(maxnodes)
